@@ -85,7 +85,7 @@ def gen_grammar(rng, lexer, cyclic):
     for idx, n in enumerate(names):
         alts = []
         for _ in range(rng.randint(1, 3)):
-            k = rng.choice([1, 1, 2, 2, 2, 3])
+            k = rng.choice([1, 1, 2, 2, 2, 3, 3, 4])
             items = []
             for _ in range(k):
                 r = rng.random()
